@@ -25,8 +25,9 @@ func init() {
 			frac   string
 			period int64
 			dup    bool
-		}{{"0.75", 2, false}, {"0.25", 1, true}, {"0", 3, false}, {"1", 1, false}} {
-			us = append(us, Search{Sc: Rewards{Fraction: f.frac, Period: f.period, Dup: f.dup}, Depth: depth})
+			cap    uint32
+		}{{"0.75", 2, false, 0}, {"0.25", 1, true, 0}, {"0", 3, false, 0}, {"1", 1, false, 0}, {"0.5", 1, false, 40}} {
+			us = append(us, Search{Sc: Rewards{Fraction: f.frac, Period: f.period, Dup: f.dup, Cap: f.cap}, Depth: depth})
 		}
 		return CheckSpec{Level: "model_checking", Rule: searchRule, Assumptions: append([]string{
 			"fees reach the consumer's fee collector through the bank call the ante handler makes; the reward transfer runs through the real ibc-go transfer keeper (escrow, voucher mint) and the provider's transfer middleware; packet relay and channel handshakes through the Net shim",
